@@ -95,4 +95,36 @@ theorem all_timeDir (fe : Bool) (answers : List (Lod × Option (List (List Row))
 theorem candRows_time_sorted (q : Req) (answers : List (Lod × Option (List (List Row)))) (h : TimeOrdered answers) :
     (candRows q (dir q.win.fromEnd answers)).Pairwise (timeDir q.win.fromEnd) :=
   List.Pairwise.sublist (candRows_sublist q _) (all_timeDir q.win.fromEnd answers h)
+/-! ### `less` (queryTableRows.Less) is the lexicographic order on (time, number of tags, tags as integers, skey) -/
+
+/-- for tag lists of equal length the tag loop plus the skey test is: tags lexicographically less (order of `Int`,
+    no wrap-around), or equal tags and a smaller skey -/
+theorem tl_lex : ∀ (l1 l2 : List Int) (s1 s2 : Nat), l1.length = l2.length →
+    (tl l1 s1 l2 s2 = true ↔ l1 < l2 ∨ (l1 = l2 ∧ s1 < s2)) := by
+  intro l1
+  induction l1 with
+  | nil =>
+    intro l2 s1 s2 hl
+    cases l2 with
+    | nil => simp [tl_nil]
+    | cons => simp at hl
+  | cons x l1 ih =>
+    intro l2 s1 s2 hl
+    cases l2 with
+    | nil => simp at hl
+    | cons y l2 =>
+      have hl' : l1.length = l2.length := by simpa using hl
+      rw [tl_cons, ih l2 s1 s2 hl', List.cons_lt_cons_iff]
+      constructor
+      · rintro (h | ⟨rfl, h | ⟨rfl, h⟩⟩)
+        · exact Or.inl (Or.inl h)
+        · exact Or.inl (Or.inr ⟨rfl, h⟩)
+        · exact Or.inr ⟨rfl, h⟩
+      · rintro ((h | ⟨rfl, h⟩) | ⟨he, h⟩)
+        · exact Or.inl h
+        · exact Or.inr ⟨rfl, Or.inl h⟩
+        · simp only [List.cons.injEq] at he
+          obtain ⟨rfl, rfl⟩ := he
+          exact Or.inr ⟨rfl, Or.inr ⟨rfl, h⟩⟩
+
 end SH.C25
